@@ -64,7 +64,7 @@ func (xp xpathImpl) resolvePath(seg *xpath.Path, s *Selection) (*Selection, *xpa
 		}
 		return s, seg, nil
 	}
-	panic("type not supported " + m.Ident())
+	return nil, nil, fmt.Errorf("%w. xpath on '%s' not supported", fc.BadRequestError, m.Ident())
 }
 
 func (xp xpathImpl) resolveExpression(name string, e xpath.Expression, sel *Selection) (bool, error) {
